@@ -486,6 +486,50 @@ pub fn soak(seed: u64, threads: usize, ops: usize) -> Vec<String> {
         }
     }
     out.extend(racing_interns(seed, 4, (ops / 10).clamp(2000, 200_000)));
+    out.extend(value_semantics());
+    out
+}
+
+/// "equal contents compare and hash equal", for independently created handles (not clones), the empty contents included;
+/// unequal contents compare unequal; afterwards the table is empty
+fn value_semantics() -> Vec<String> {
+    use std::collections::hash_map::DefaultHasher;
+    use std::hash::{Hash, Hasher};
+    let h = |s: &SharedString| {
+        let mut d = DefaultHasher::new();
+        Hash::hash(s, &mut d);
+        d.finish()
+    };
+    let mut out = Vec::new();
+    let contents: Vec<Vec<u8>> = vec![vec![], vec![0], vec![0, 0], b"value-semantics".to_vec(), vec![0xff; 70_000]];
+    for (i, c) in contents.iter().enumerate() {
+        let a = SharedString::new(c.clone());
+        let b = SharedString::new(c.clone());
+        if a.data() != c.as_slice() || b.data() != c.as_slice() {
+            out.push(format!("C18 soak: a handle created from {} bytes exposes other bytes", c.len()));
+        }
+        if a != b {
+            out.push(format!("C18 soak: two handles created independently from the same {} bytes compare unequal", c.len()));
+        }
+        if h(&a) != h(&b) {
+            out.push(format!("C18 soak: two handles created independently from the same {} bytes hash differently", c.len()));
+        }
+        if !c.is_empty() && a.data().as_ptr() != b.data().as_ptr() {
+            out.push(format!("C18 soak: two live handles created from the same {} bytes do not share one buffer", c.len()));
+        }
+        for (j, c2) in contents.iter().enumerate() {
+            if i != j {
+                let o = SharedString::new(c2.clone());
+                if a == o {
+                    out.push(format!("C18 soak: handles with different contents ({} and {} bytes) compare equal", c.len(), c2.len()));
+                }
+            }
+        }
+    }
+    let l = hook::table_len();
+    if l != 0 {
+        out.push(format!("C18 soak: after the value-semantics phase dropped every handle the intern table still has {l} entries"));
+    }
     out
 }
 
